@@ -213,7 +213,7 @@ package gorm
 //@   ensures same-handle: result == db
 
 //@ # ---------- C14: lock discipline of the prepared-statement cache (premises of the monitor argument) ----------
-//@ ghost held inserted closes prepares spawned prepErr evicted
+//@ ghost held inserted closes prepares spawned prepErr evicted ranged waited usable
 //@ event call (*RWMutex).RLock
 //@   requires lock-taken-while-free: held == 0 [C14]
 //@   do held = 1
@@ -238,6 +238,7 @@ package gorm
 //@   do evicted = evicted + 1
 //@ event recv
 //@   requires no-wait-while-locked: held == 0 [C14]
+//@   do waited = 1
 //@   interference
 //@ event invoke ConnPool.PrepareContext
 //@   requires no-prepare-while-locked: held == 0 [C14]
@@ -249,6 +250,10 @@ package gorm
 //@   requires no-query-while-locked: held == 0 [C14]
 //@ event call database/sql.(*Stmt).Close
 //@   requires no-close-while-locked: held == 0 [C14]
+//@ event mapnext PreparedStmtDB.Stmts
+//@   do ranged = ranged + arg0
+//@ event maplookup PreparedStmtDB.Stmts
+//@   do usable = ite(arg1 && (!arg0.Transaction || isTransaction), 1, 0)
 //@ event close
 //@   do closes = closes + 1
 //@ event go
@@ -266,6 +271,7 @@ package gorm
 //@   ensures failed-preparation-reported-and-evicted: prepares == old(prepares) + 1 && prepErr != 0 ==> result1 != nil && evicted == old(evicted) + 1
 //@   ensures successful-preparation-stays-cached: prepares == old(prepares) + 1 && prepErr == 0 ==> result1 == nil && evicted == old(evicted)
 //@   ensures hit-paths-do-not-evict: prepares == old(prepares) ==> evicted == old(evicted)
+//@   ensures usable-entry-is-reused: usable == 1 ==> prepares == old(prepares) && inserted == old(inserted)
 
 //@ func (*PreparedStmtDB).ExecContext (*PreparedStmtDB).QueryContext (*PreparedStmtTX).ExecContext (*PreparedStmtTX).QueryContext
 //@   tags C14
@@ -275,7 +281,16 @@ package gorm
 //@ func (*PreparedStmtDB).Reset (*PreparedStmtDB).Close
 //@   tags C14
 //@   requires held == 0
+//@   loop 1 invariant every-entry-gets-a-closer: spawned - old(spawned) == ranged - old(ranged) && held == 2
 //@   ensures mutex-free-on-return: held == 0
+//@   ensures every-entry-gets-a-closer: spawned - old(spawned) == ranged - old(ranged)
+
+//@ site closer-waits-for-preparation
+//@   match call database/sql.(*Stmt).Close
+//@   in gorm.(*PreparedStmtDB).Reset$1 gorm.(*PreparedStmtDB).Close$1
+//@   min-sites 2
+//@   entry waited == 0
+//@   assert waited-for-preparation: waited == 1 [C14]
 
 //@ func (*PreparedStmtDB).Reset$1 (*PreparedStmtDB).Close$1
 //@   tags C14
